@@ -1,6 +1,6 @@
 ------------------------------ MODULE Conf_RC5 ------------------------------
 EXTENDS RC5, Json, IOUtils
-VARIABLES l, inst
+VARIABLES tpos, inst
 Rec == ndJsonDeserialize(IOEnv.TRACE)
 OSched(t, k, x) == RC5Sched(t, k, x)
 OEnc(ks, b) == RC5Enc(ks, b)
